@@ -418,6 +418,11 @@ func runFED10(r *core.Run) {
 			r.Fail(prop, "stream", "fragment-completed-with-empty-incremental-list", "a deferred fragment was announced and completed but its incremental list is empty, although the same operation without @defer returns values for its fields\n%sdelivered:     %s\nwithout defer: %s\nframes:\n  %s\n%s", ctxMsg, got, twin.data, strings.Join(x.w.frames, "\n  "), e.describe())
 		} else if got != twin.data && altReconstruct(x.w.frames, twin.data, strings.Count(op.Query, "@defer") >= 2) {
 			r.Fail(prop, "reconstruction", "pending-path-includes-first-item-subpath", "the payloads reconstruct the non-deferred data only when items with a subPath are read relative to a prefix of the announced pending path\n%sframes:\n  %s\n%s", ctxMsg, strings.Join(x.w.frames, "\n  "), e.describe())
+		} else if got != twin.data && got == want && e.deferShape(op.Query) == "" {
+			// known finding (known_findings.json): the deferred execution reconstructs the reference's
+			// data; it is the same operation without @defer that is planned wrongly (fetches of a
+			// @requires chain are missing from the non-deferred plan and the inputs are sent as null)
+			r.Fail(prop, "reconstruction", "twin-wrong-deferred-equals-reference", "the incremental payloads reconstruct the data of the reference, but the same operation without @defer returns something else (%d subgraph requests without @defer, %d with)\n%sreconstructed: %s\nwithout defer: %s\nframes:\n  %s\n%s", twinRequests, len(e.reqs), ctxMsg, got, twin.data, strings.Join(x.w.frames, "\n  "), e.describe())
 		} else if got != twin.data {
 			r.Fail(prop, "reconstruction", "twin"+e.deferShape(op.Query), "applying the incremental payloads to the initial data does not give the data of the same operation without @defer\n%sreconstructed: %s\nwithout defer: %s\nframes:\n  %s\n%s", ctxMsg, got, twin.data, strings.Join(x.w.frames, "\n  "), e.describe())
 		} else if got != want {
